@@ -28,6 +28,31 @@ CLAIMED["C09"] = ("verif-tun", "DESIGN.md §3 C09",
     "the gateway's socket loop is not simulated.",
     "deterministic simulation with fault injection (seeded history/fault search against a reference registry model, replayable choice vector, shrinking)")
 
+MGR_NOTE = ("Built with cargo feature verif-hooks (clock, timer, spawn, lock, hash-seed and jitter calls of the path manager go to the simulator; "
+            "the managed-pair index is a model of scc::HashIndex with simulator-chosen reclamation). Trusted: internals of tokio Notify/broadcast, arc_swap; "
+            "paths are TestPathBuilder products (single up-segment routes); lookups are scripted (the real PathFetcherImpl/combinator is not in the loop). "
+            "Known findings listed in known_findings.json are reported as KNOWN-FINDING lines and matched by causal pattern, not by clause.")
+MGR_TECH = "deterministic simulation with fault injection (virtual-time baton scheduler over the real manager and worker task, seeded history/fault search, reference knowledge/penalty models, replayable choice vector, shrinking)"
+
+CLAIMED["C05"] = ("verif-mgr", "DESIGN.md §3 C05",
+    "Seeded search over life histories of the real MultiPathManager and its per-pair worker task on a deterministic virtual-time scheduler: sends (waiting and non-waiting), "
+    "lookup outcomes drawn from {ok with arbitrary subsets/expiries/duplicate fingerprints/metadata-less paths, empty, error, stall}, boundary-directed clock advances, issue reports, "
+    "stop/prefetch/garbage-collection, two destinations; policies drawn from the ACL and hop-pattern languages (parsed from generated strings) and arbitrary hash predicates. "
+    "Every hand-out is checked: policy accepts it (re-evaluated by the same policy objects), endpoints match, (fingerprint, expiry) was delivered by a successful lookup for the pair, "
+    "metadata-less paths never pass a metadata-dependent policy. Evidence, not proof.",
+    MGR_NOTE, MGR_TECH)
+CLAIMED["C06"] = ("verif-mgr", "DESIGN.md §3 C06",
+    "Same engine, configurations drawn from everything the validator accepts (incl. shipped defaults), with lookup failures/stalls, clock deltas straddling expiry/threshold/refetch/back-off/dedup boundaries, "
+    "repeated and duplicate issue reports. Checked at every quiescent point: no expired path handed out, sender not left without a path while the worker caches a valid one and no lookup is outstanding, "
+    "cache size <= max, issue cache and FIFO <= configured size, lookup spacing >= min delay and <= back-off ceiling after a failure, no worker panic, and bounded liveness: "
+    "once lookups succeed again every requested pair is served within ceiling + min delay. Evidence, not proof.",
+    MGR_NOTE, MGR_TECH)
+CLAIMED["C07"] = ("verif-mgr", "DESIGN.md §3 C07",
+    "Same engine with report-heavy workloads over path universes with shared/disjoint first hops and transit ASes. Reference matcher (route interface lists) and reference penalty bounds computed from the "
+    "documented half-lives (30 s / 90 s) decide: after a non-duplicate report concerning the active path, if a valid unpenalised alternative avoiding the interface is cached, the very next send avoids it; "
+    "no path carrying a fresh penalty is handed out while such an alternative is cached (covers premature return and eligibility after decay); a report concerning no cached path leaves the active path unchanged. Evidence, not proof.",
+    MGR_NOTE + " Paths without metadata are excluded from C07 runs (interface reports cannot be matched against them by design).", MGR_TECH)
+
 NOT_APPLICABLE = {
     "C02": "pure function of a byte string (no stream, timer, shared state or fault in it): not a simulation target; needs exhaustive enumeration / a memory checker",
     "C03": "pure function of a packet model / byte string: needs an independent reference decoder and boundary-directed input generation, not a scheduler",
@@ -44,9 +69,6 @@ NOT_APPLICABLE = {
 # planned but not yet built engines: listed as not claimed until their check exists
 PENDING = {
     "C01": "engine net-sim not built yet in this round (planned: DESIGN.md §3 C01); not claimed until its check exists",
-    "C05": "engine mgr-sim not built yet in this round (planned: DESIGN.md §3 C05); not claimed until its check exists",
-    "C06": "engine mgr-sim not built yet in this round (planned: DESIGN.md §3 C06); not claimed until its check exists",
-    "C07": "engine mgr-sim not built yet in this round (planned: DESIGN.md §3 C07); not claimed until its check exists",
     "C11": "engine net-sim not built yet in this round (planned: DESIGN.md §3 C11); not claimed until its check exists",
     "C13": "engine net-sim not built yet in this round (planned: DESIGN.md §3 C13); not claimed until its check exists",
     "C14": "engine net-sim not built yet in this round (planned: DESIGN.md §3 C14); not claimed until its check exists",
